@@ -69,3 +69,42 @@ Print Assumptions C14_from_hex_case_insensitive.
 Print Assumptions C14_from_slice_ok_iff_32.
 Print Assumptions C14_from_slice_lossless.
 Print Assumptions C14_eq_iff_bytes_equal.
+
+(* --- the `Hash` value type of src/lib.rs, translated function by function (gen/GenHashFns.v, regenerated from the
+   current source text by tools/gen_coq_hash.py): each translated function equals the function of Model/RsHash.v
+   the theorems above are about.  constant_time_eq_32 / constant_time_eq of the constant_time_eq crate enter as the
+   model's constant_time_eq (by contract). ----- *)
+From V Require Import gen.GenHashFns Proofs.GenHashFnsP.
+
+Theorem C14_src_to_hex : forall h, all_bytes h = true -> src_Hash_to_hex h = to_hex h.
+Proof. exact gen_to_hex. Qed.
+Theorem C14_src_display : forall h, all_bytes h = true -> src_Display_for_Hash_fmt h = display h.
+Proof. exact gen_display. Qed.
+(* for EVERY input string, result by result (value, which error, panic) *)
+Theorem C14_src_from_hex : forall s, src_Hash_from_hex s = from_hex s.
+Proof. exact gen_from_hex. Qed.
+Theorem C14_src_from_str : forall s, src_FromStr_for_Hash_from_str s = from_str s.
+Proof. exact gen_from_str. Qed.
+Theorem C14_src_from_slice : forall bs, src_Hash_from_slice bs = from_slice bs.
+Proof. exact gen_from_slice. Qed.
+Theorem C14_src_views : forall h,
+  src_Hash_as_bytes h = as_bytes h /\ src_Hash_from_bytes h = from_bytes h /\ src_Hash_as_slice h = as_slice h /\
+  src_From_array_for_Hash_from h = from_bytes h /\ src_From_Hash_for_array_from h = as_bytes h.
+Proof. exact gen_views. Qed.
+Theorem C14_src_eq : forall a b,
+  src_PartialEq_for_Hash_eq constant_time_eq a b = hash_eq a b /\
+  src_PartialEq_array_for_Hash_eq constant_time_eq a b = hash_eq a b /\
+  src_PartialEq_slice_for_Hash_eq constant_time_eq a b = hash_eq_slice a b.
+Proof. exact gen_eq. Qed.
+(* composed with the theorems above: the translated text itself round-trips *)
+Theorem C14_src_round_trip : forall h s,
+  length h = 32%nat -> all_bytes h = true -> src_Hash_to_hex h = Ok s -> src_FromStr_for_Hash_from_str s = Ok (HexOk h).
+Proof. exact gen_round_trip. Qed.
+Print Assumptions C14_src_to_hex.
+Print Assumptions C14_src_display.
+Print Assumptions C14_src_from_hex.
+Print Assumptions C14_src_from_str.
+Print Assumptions C14_src_from_slice.
+Print Assumptions C14_src_views.
+Print Assumptions C14_src_eq.
+Print Assumptions C14_src_round_trip.
